@@ -993,9 +993,14 @@ func mGet(n *Nodis, conn *redis.Conn, cmd redis.Command) {
 		return
 	}
 	execCommand(conn, func() {
-		conn.WriteArray(len(cmd.Args))
-		for _, v := range cmd.Args {
-			value := n.Get(v)
+		// read everything first: a key of the wrong type must fail the command before any part
+		// of the reply (the array header) has been written
+		values := make([][]byte, len(cmd.Args))
+		for i, v := range cmd.Args {
+			values[i] = n.Get(v)
+		}
+		conn.WriteArray(len(values))
+		for _, value := range values {
 			if value == nil {
 				conn.WriteBulkNull()
 				continue
